@@ -70,6 +70,98 @@ func §E() {
 		tr.V(5, kt.Current())
 	}
 }`, "user-seq-code")),
+		withSeq(by("by-user-seq-code-delay-over-every-kind-of-argument", `
+type §feed struct {
+	src  seq.Iterator[int]
+	more func() bool
+	n    int
+}
+
+func (f *§feed) More() bool { f.n++; return tr.V(60, f.n) < 3 }
+
+func §count(from, k int) seq.Iterator[int] {
+	i := 0
+	return seq.Start(seq.Delay(func() seq.Seq[int] {
+		return seq.While(func() bool { i++; return i <= k }, seq.Delay(func() seq.Seq[int] { return seq.Bind(from+i, seq.Normal[int]) }))
+	}))
+}
+func §pick(tag int, it seq.Iterator[int]) seq.Iterator[int] { tr.E(tag); return it }
+func §drain(tag int, s seq.Seq[int]) {
+	tr.E(tag)
+	it := seq.Start(s)
+	for k := 0; k < 6 && it.MoveNext(); k++ {
+		tr.V(tag+1, it.Current())
+	}
+}
+func §E() {
+	// every Seq below is BUILT first, then the state its arguments read is changed, then it is run:
+	// a Delay must keep the evaluation of the arguments of the call it returns until the Seq runs
+	h := &§feed{src: §count(0, 2)}
+	pull := seq.Delay(func() seq.Seq[int] {
+		return seq.While(h.src.MoveNext, seq.Delay(func() seq.Seq[int] { return seq.Bind(h.src.Current(), seq.Normal[int]) }))
+	})
+	h.src = §count(10, 3)
+	§drain(100, pull)
+
+	var late seq.Iterator[int]
+	viaNil := seq.Delay(func() seq.Seq[int] {
+		return seq.While(late.MoveNext, seq.Delay(func() seq.Seq[int] { return seq.Bind(late.Current(), seq.Normal[int]) }))
+	})
+	late = §count(20, 2)
+	§drain(110, viaNil)
+	var never seq.Iterator[int]
+	unused := seq.Delay(func() seq.Seq[int] { return seq.While(never.MoveNext, seq.Normal[int]()) })
+	_ = unused
+	tr.E(115)
+
+	src := §count(30, 2)
+	picked := seq.Delay(func() seq.Seq[int] {
+		return seq.While(§pick(120, src).MoveNext, seq.Delay(func() seq.Seq[int] { return seq.Bind(src.Current(), seq.Normal[int]) }))
+	})
+	tr.E(121)
+	§drain(122, picked)
+
+	f := &§feed{}
+	byMethod := seq.Delay(func() seq.Seq[int] { return seq.While(f.More, seq.Bind(1, seq.Normal[int])) })
+	f = &§feed{n: 1}
+	§drain(130, byMethod)
+
+	cond := func() bool { return false }
+	byVar := seq.Delay(func() seq.Seq[int] { return seq.While(cond, seq.Bind(2, seq.Normal[int])) })
+	k := 0
+	cond = func() bool { k++; return k < 3 }
+	§drain(140, byVar)
+
+	h2 := &§feed{more: func() bool { return false }}
+	byField := seq.Delay(func() seq.Seq[int] { return seq.While(h2.more, seq.Bind(3, seq.Normal[int])) })
+	j := 0
+	h2.more = func() bool { j++; return j < 3 }
+	§drain(150, byField)
+
+	conds := []func() bool{func() bool { return false }}
+	byIndex := seq.Delay(func() seq.Seq[int] { return seq.While(conds[0], seq.Bind(4, seq.Normal[int])) })
+	m := 0
+	conds[0] = func() bool { m++; return m < 2 }
+	§drain(160, byIndex)
+
+	v := 5
+	xs := []int{7, 8}
+	p := &v
+	byValue := seq.Delay(func() seq.Seq[int] { return seq.Bind(v, seq.Normal[int]) })
+	byArith := seq.Delay(func() seq.Seq[int] { return seq.Bind(v*2+1, seq.Normal[int]) })
+	byElem := seq.Delay(func() seq.Seq[int] { return seq.Bind(xs[1], seq.Normal[int]) })
+	byDeref := seq.Delay(func() seq.Seq[int] { return seq.Bind(*p, seq.Normal[int]) })
+	byLit := seq.Delay(func() seq.Seq[int] { return seq.Bind(len([]int{v, v, v}[:v-4]), seq.Normal[int]) })
+	byConv := seq.Delay(func() seq.Seq[int] { return seq.Bind(int(int8(v)), seq.Normal[int]) })
+	byRet := seq.Delay(func() seq.Seq[int] { return seq.ReturnValue(v) })
+	v, xs[1] = 6, 9
+	w := 40
+	p = &w
+	§drain(170, seq.Combine(byValue, seq.Combine(byArith, seq.Combine(byElem, seq.Combine(byDeref, seq.Combine(byLit, byConv))))))
+	rt := seq.Start(byRet).(seq.Generator[int])
+	rt.MoveNext()
+	tr.V(180, rt.Result())
+}`, "user-seq-code")),
 		withSeq(by("by-user-wrappers-of-generic-seq-functions-with-inferred-type-arguments", `
 func §E() {
 	loop := func(body seq.Seq[int]) seq.Seq[int] { return seq.Loop(body) }
